@@ -492,6 +492,43 @@ Fixpoint goal_any (f : list clause -> ty -> bool) (P : program) (env : list clau
 Definition f7q_class (fuel : nat) (P : program) (g : goal) : bool :=
   goal_any (fun cls a => f7q_atom fuel cls (pcoind P) a) P [] [] g.
 
+(** Known class F7n: SLG panics ("Negative subgoal had delayed_subgoals", logic.rs) when a
+    negated closed goal looks at an atom whose search space contains a coinductive cycle atom
+    in a strongly connected component that is not a simple ring (the negated subgoal's answer
+    then carries delayed subgoals, which the engine declares impossible "by construction"). *)
+Definition f7n_atom (fuel : nat) (cls : list clause) (co : list N) (a : ty) : bool :=
+  match reach (bodies cls) fuel [a] [] with
+  | None => false
+  | Some R =>
+      existsb (fun g =>
+        isco co g &&
+        let Rg := reach_plus fuel cls g in
+        memT g Rg &&
+        let scc := filter (fun y => memT g (reach_plus fuel cls y)) Rg in
+        existsb (fun m => Nat.leb 2 (length (filter (fun s => memT s scc) (succs cls m)))) scc) R
+  end.
+
+Fixpoint goal_any_neg (f : list clause -> ty -> bool) (P : program) (env : list clause) (rho : list ty)
+                      (neg : bool) (g : goal) : bool :=
+  match g with
+  | GAtom a => let a' := subst (listth rho) a in neg && groundb a' && f (allc P env) a'
+  | GAnd g1 g2 => goal_any_neg f P env rho neg g1 || goal_any_neg f P env rho neg g2
+  | GForall g' => goal_any_neg f P env (TPh (fresh P env rho g') :: rho) neg g'
+  | GExists g' => false
+  | GIf hs g' => goal_any_neg f P (map (inst_hyp rho) hs ++ env) rho neg g'
+  | GNot g' => goal_any_neg f P env rho true g'
+  | _ => false
+  end.
+
+Definition f7n_class (fuel : nat) (P : program) (g : goal) : bool :=
+  goal_any_neg (fun cls a => f7n_atom fuel cls (pcoind P) a) P [] [] false g.
+
+(** F7q for goals with unknowns: some candidate instantiation of the unknowns makes the goal
+    look at an atom of the F7n/F7q kind (for a non-ground goal every ground atom is a
+    non-root member of the search). *)
+Definition f7q_query (fuel : nat) (P : program) (q : query) (cands : list (list ty)) : bool :=
+  existsb (fun th => goal_any (fun cls a => f7n_atom fuel cls (pcoind P) a) P [] (rev th) (q_body q)) cands.
+
 (** ** Witnesses (computation) *)
 
 Module ContractExamples.
@@ -575,4 +612,18 @@ Module ContractExamples.
   Example f7q_ring_outside :
     f7q_class 50 (mkProg [mkClause (C (K 0)) [C (K 1)]; mkClause (C (K 1)) [C (K 2)]; mkClause (C (K 2)) [C (K 1)]] [1000%N]) (GAtom (C (K 0))) = false.
   Proof. reflexivity. Qed.
+  Example f7q_query_witness :
+    f7q_query 50 P7q (mkQuery 0 [0%N] (GAtom (C (TVar 0)))) [[K 0]; [K 2]] = true /\
+    ~ contract P7q [] (mkQuery 0 [0%N] (GAtom (C (TVar 0)))) ANone.
+  Proof.
+    split; [reflexivity|].
+    apply (check_answer_alarm_sound 50 P7q [] (mkQuery 0 [0%N] (GAtom (C (TVar 0)))) ANone [[K 2]] 3 rr7q). reflexivity.
+  Qed.
+
+  (* F7n: not { S2: C } on P7q (S2 lies in the non-ring SCC): SLG panics on the unchanged tree;
+     the goal is simply false *)
+  Example f7n_witness :
+    f7n_class 50 P7q (GNot (GAtom (C (K 2)))) = true /\ eval_goal 50 P7q [] [] (GNot (GAtom (C (K 2)))) = Some false /\
+    f7n_class 50 P7q (GAtom (C (K 2))) = false.
+  Proof. repeat split; reflexivity. Qed.
 End ContractExamples.
